@@ -38,6 +38,7 @@ type Env struct {
 	cloFn  *ssa.Function
 	depth  int
 	binds  map[string]*ssa.Function
+	inPattern bool
 }
 
 func (e *Env) with(st *State) *Env {
@@ -417,8 +418,10 @@ func (e *Env) trVal(x Expr) Val {
 		for _, tr := range x.Triggers {
 			var ps []string
 			for _, t := range tr {
-				s, _ := n.tr(t)
-				ps = append(ps, s)
+				pn := *n
+				pn.inPattern = true
+				s, _ := pn.tr(t)
+				ps = append(ps, stripMapIte(s))
 			}
 			pats = append(pats, ":pattern ("+strings.Join(ps, " ")+")")
 		}
@@ -653,9 +656,14 @@ func (e *Env) trIndex(x *Index) Val {
 			h := vc.heap(e.st, vc.arrHeapName(u.Elem()))
 			return Val{T: u.Elem(), S: fmt.Sprintf("(select (select %s (s_arr %s)) %s)", h, xv.S, i)}
 		case *types.Map:
+			// as in Go: a key that is not in the map reads as the zero value
 			ms := vc.S.mapSortGo(u)
 			h := vc.heap(e.st, vc.mapHeapName(u))
-			return Val{T: u.Elem(), S: fmt.Sprintf("(select (%s__val (select %s %s)) %s)", ms, h, xv.S, i)}
+			rec := fmt.Sprintf("(select %s %s)", h, xv.S)
+			if e.inPattern {
+				return Val{T: u.Elem(), S: fmt.Sprintf("(select (%s__val %s) %s)", ms, rec, i)}
+			}
+			return Val{T: u.Elem(), S: fmt.Sprintf("(ite (select (%s__dom %s) %s) (select (%s__val %s) %s) %s)", ms, rec, i, ms, rec, i, vc.S.zeroOf(u.Elem()))}
 		case *types.Basic:
 			if u.Info()&types.IsString != 0 {
 				return Val{T: tByte, S: "(sat " + xv.S + " " + i + ")"}
@@ -897,6 +905,17 @@ func (e *Env) trCall(x *Call) Val {
 			}
 		}
 		specFail("captured: %s does not capture %s", fn.Name(), vn.Name)
+	case "mapget":
+		// mapget(m, k): the stored value for key k (meaningful when k in m; avoids the zero-value case split)
+		mv := e.trVal(x.Args[0])
+		k, _ := argS(1)
+		u, ok := under(mv.T).(*types.Map)
+		if !ok {
+			specFail("mapget of non-map")
+		}
+		ms := vc.S.mapSortGo(u)
+		h := vc.heap(e.st, vc.mapHeapName(u))
+		return Val{T: u.Elem(), S: fmt.Sprintf("(select (%s__val (select %s %s)) %s)", ms, h, mv.S, k)}
 	case "cellat":
 		// cellat(T, ref): the value of type T stored at heap reference ref
 		t := vc.typeArg(x.Args[0])
@@ -1123,4 +1142,62 @@ func (vc *VC) fnOfName(fr *Frame, name string) *ssa.Function {
 		}
 	}
 	return nil
+}
+
+// stripMapIte rewrites (ite (select (M__dom R) K) (select (M__val R) K) Z) to (select (M__val R) K): solvers do
+// not accept ite inside patterns, and the stored value is the right trigger term for "m[k]".
+func stripMapIte(s string) string {
+	for {
+		i := strings.Index(s, "(ite (select (")
+		if i < 0 {
+			return s
+		}
+		// parse the three arguments of this ite
+		args, end := sexprArgs(s, i)
+		if len(args) != 4 || !strings.Contains(args[1], "__dom ") || !strings.Contains(args[2], "__val ") {
+			// not the map form: leave (and stop, to avoid looping)
+			return s
+		}
+		s = s[:i] + args[2] + s[end:]
+	}
+}
+
+// sexprArgs splits the list starting at s[i]=='(' into its top-level elements; returns them and the index after ')'
+func sexprArgs(s string, i int) ([]string, int) {
+	var out []string
+	depth := 0
+	start := -1
+	for j := i; j < len(s); j++ {
+		switch s[j] {
+		case '(':
+			depth++
+			if depth == 2 && start < 0 {
+				start = j
+			}
+		case ')':
+			depth--
+			if depth == 1 && start >= 0 {
+				out = append(out, s[start:j+1])
+				start = -1
+			}
+			if depth == 0 {
+				if start >= 0 {
+					out = append(out, s[start:j])
+				}
+				return out, j + 1
+			}
+		case ' ':
+			if depth == 1 {
+				if start >= 0 {
+					out = append(out, s[start:j])
+					start = -1
+				}
+			}
+		default:
+			if depth == 1 && start < 0 {
+				start = j
+			}
+		}
+	}
+	return out, len(s)
 }
